@@ -927,6 +927,14 @@ impl<K: El, V: El> Mon<K, V> {
             }
         }
 
+        // ---- C03: "deallocated as soon as its last element is moved out or removed"; only
+        // retain and replace_entry_with may leave an emptied old table behind ----
+        if let (Some(l0), Some(0)) = (old0, old1) {
+            if l0 > 0 && !may_leave_empty_old_table(op) {
+                soft!(self, "C03", "{} took the last {} element(s) out of the old table but did not release it", enc(), l0);
+            }
+        }
+
         // ---- contents (C01 & co) ----
         if self.nops % self.check_every == 0 {
             self.full_check(class_prop(op.code), contents_more(op.code), &enc())?;
@@ -1018,6 +1026,17 @@ fn first_diff(got: &[(u64, u64, u64, u64)], want: &[(u64, u64, u64, u64)]) -> St
 
 pub fn capacity_call_while_split(c: Code, st0: &State) -> bool {
     matches!(c, Code::Reserve | Code::TryReserve | Code::ShrinkTo | Code::ShrinkToFit) && st0.old.as_ref().map_or(false, |o| o.table.len > 0)
+}
+
+/// C03 names the calls after which an emptied old table may stay allocated: retain and
+/// replace_entry_with (entry / raw-entry chains containing such a step).
+pub fn may_leave_empty_old_table(op: &Op) -> bool {
+    use crate::ops::step::*;
+    match op.code {
+        Code::Retain | Code::SRetain => true,
+        Code::Entry | Code::RawEntryMut => op.list.chunks(2).any(|c| matches!(c[0], E_AND_REPLACE | O_REPLACE_WITH | RE_AND_REPLACE | RO_REPLACE_WITH)),
+        _ => false,
+    }
 }
 
 pub fn op_has_key(c: Code) -> bool {
